@@ -551,7 +551,7 @@ class Path:
         self.assume = assume
 
 
-def explore(fn, max_paths=200000, timeout_ms=60000, prefix=()):
+def explore(fn, max_paths=200000, timeout_ms=60000, prefix=(), stop=None):
     """run fn(ctx) on every feasible path; returns list of Path.  fn must be deterministic under re-execution."""
     work = [list(prefix)]
     paths = []
@@ -566,6 +566,8 @@ def explore(fn, max_paths=200000, timeout_ms=60000, prefix=()):
         finally:
             Ctx.cur = None
         paths.append(Path(list(c.pc), res, list(c.prefix), list(c.assume)))
+        if stop is not None and stop(res):
+            break  # the caller has seen enough (e.g. a run that does not terminate): the remaining paths are not explored, no coverage is claimed
         for i in c.alts:
             work.append(c.prefix[:i] + [False])
         if len(paths) > max_paths:
